@@ -40,6 +40,12 @@ func flagViaBuilders(f ldmodel.FeatureFlag) ldmodel.FeatureFlag {
 	out := b.Build()
 	// properties the builder has no setter for (or couples together) are copied: they are plain exported fields
 	out.ClientSideAvailability = f.ClientSideAvailability
+	// AddTarget cannot say which kind an entry of the older list is for; the field is exported and copied
+	for i := range out.Targets {
+		if i < len(f.Targets) {
+			out.Targets[i].ContextKind = f.Targets[i].ContextKind
+		}
+	}
 	return out
 }
 
